@@ -851,5 +851,37 @@ theorem results_wellformed (cs : Consts K) (pk : PrecKind) (hk : pk ≠ .identit
     simp only [Precond.unscaleSlackUb, hk, if_false, C15.headMap_get, hnub, ht, if_true]
     exact mul_pos (hc.s_ub t ht) (iu t)
 
+/-- the same for the identity preconditioner (no unscaling): no hypothesis on the preconditioner state at all -/
+theorem results_wellformed_identity (cs : Consts K) (pk : PrecKind) (hk : pk = .identity) (d : Data K n p m) (pre : Precond K n p m)
+    (hl : d.lb.cnt ≤ n) (hu : d.ub.cnt ≤ n) (sl : StrictIdx d.lb.idx d.lb.cnt) (su : StrictIdx d.ub.idx d.ub.cnt)
+    (wl : Work K n p m) (hc : InCone d wl) :
+    let res := restoreBoxDual cs d (unscaleResults pk pre wl)
+    (∀ t : Fin m, 0 < res.s[t]) ∧ (∀ t : Fin m, 0 < res.z[t]) ∧
+    (∀ j : Fin n, res.z_lb[j] = 0 ∨ 0 < res.z_lb[j]) ∧ (∀ j : Fin n, res.z_ub[j] = 0 ∨ 0 < res.z_ub[j]) ∧
+    (∀ j : Fin n, res.s_lb[j] = cs.posInf ∨ 0 < res.s_lb[j]) ∧ (∀ j : Fin n, res.s_ub[j] = cs.posInf ∨ 0 < res.s_ub[j]) := by
+  subst hk
+  simp only [restoreBoxDual, unscaleResults]
+  refine ⟨fun t => ?_, fun t => ?_, ?_, ?_, ?_, ?_⟩
+  · simp only [Precond.unscaleSlackIneq, if_true]
+    exact hc.s t
+  · simp only [Precond.unscaleDualIneq, if_true]
+    exact hc.z t
+  · apply restore_pos d.lb hl sl
+    intro t ht
+    simp only [Precond.unscaleDualLb, if_true]
+    exact hc.z_lb t ht
+  · apply restore_pos d.ub hu su
+    intro t ht
+    simp only [Precond.unscaleDualUb, if_true]
+    exact hc.z_ub t ht
+  · apply restore_pos d.lb hl sl
+    intro t ht
+    simp only [Precond.unscaleSlackLb, if_true]
+    exact hc.s_lb t ht
+  · apply restore_pos d.ub hu su
+    intro t ht
+    simp only [Precond.unscaleSlackUb, if_true]
+    exact hc.s_ub t ht
+
 end cone
 end Piqp.C08
